@@ -1170,6 +1170,267 @@ def _corr_jit(ctx, model):
                 _jit_case(ctx, model, variant, jit_opt, ops)
 
 
+# ==============================================================================================
+# (A8) histories that cross object boundaries (round 2, second pass):
+#      (a) argument objects are not mutated by being used, (b) public parameters updated on a used object,
+#      (c) one helper object attached successively to two optimisers with different data
+
+
+def _problem(k, n=5):
+    """two different small problems (k = 0, 1): data, operator, scale, weights, regulariser all differ"""
+    import jax.numpy as jnp
+    from scico import functional as F
+    from scico import linop, loss
+
+    y = jnp.asarray(np.array([1.0, -0.5, 2.0, 0.25, -1.5]) * (1 + k) + k)
+    d = jnp.asarray(np.array([1.0, 2.0, 0.5, 1.5, 0.75]) * (1.0 + 0.5 * k))
+    W = linop.Diagonal(jnp.asarray(np.array([1.0, 0.5, 2.0, 1.0, 0.25]) + k))
+    return {"y": y, "d": d, "W": W, "scale": 0.5 + 0.75 * k, "g": (0.1 + 1.9 * k) * F.L1Norm(), "rho": 1.0 + 2.0 * k,
+            "x0": jnp.asarray(np.array([0.3, -0.2, 0.1, 0.4, 0.0]) * (1 + k)), "L0": 4.0 + 3.0 * k}
+
+
+def _mk_admm(k, helper, **kw):
+    import jax.numpy as jnp
+    from scico import linop, loss, optimize
+
+    P = _problem(k)
+    Cm = linop.MatrixOperator(jnp.asarray(np.eye(5) + 0.25 * np.eye(5, k=1) * (1 + k)))
+    f = loss.SquaredL2Loss(y=P["y"], A=linop.Diagonal(P["d"]), scale=P["scale"], W=P["W"])
+    return optimize.ADMM(f=f, g_list=[P["g"]], C_list=[Cm], rho_list=[P["rho"]], x0=P["x0"], subproblem_solver=helper, **kw)
+
+
+def _mk_admm_cc(k, helper, **kw):
+    import jax.numpy as jnp
+    from scico import linop, loss, optimize
+
+    P = _problem(k)
+    h = jnp.asarray(np.array([1.0, 0.5 + k, 0.25]))
+    A = linop.CircularConvolve(h, (5,), input_dtype=np.float64)
+    C = linop.FiniteDifference((5,), input_dtype=np.float64, circular=True)
+    f = loss.SquaredL2Loss(y=P["y"], A=A, scale=P["scale"])
+    return optimize.ADMM(f=f, g_list=[P["g"]], C_list=[C], rho_list=[P["rho"]], x0=P["x0"], subproblem_solver=helper, **kw)
+
+
+def _mk_pgm(k, helper, acc, **kw):
+    from scico import linop, loss, optimize
+
+    P = _problem(k)
+    f = loss.SquaredL2Loss(y=P["y"], A=linop.Diagonal(P["d"]), scale=P["scale"])
+    cls = optimize.AcceleratedPGM if acc else optimize.PGM
+    return cls(f=f, g=P["g"], L0=P["L0"], x0=P["x0"], step_size=helper, **kw)
+
+
+def _state_of(o):
+    out = [np.asarray(o.x)]
+    for nm in ("z_list", "u_list"):
+        if hasattr(o, nm):
+            out += [np.asarray(v) for v in getattr(o, nm)]
+    if hasattr(o, "L"):
+        out.append(np.asarray(float(o.L)))
+    return out
+
+
+def _reuse_run(name, nsteps):
+    """helper object used with problem 0 (stepped), then attached to problem 1; returns (reused, fresh) states"""
+    from scico.optimize import admm as admmaux
+    from scico.optimize import pgm as pgmaux
+
+    fam, cls_name, *rest = name.split(":")
+    if fam == "admm":
+        mk_h = {"Linear": lambda: admmaux.LinearSubproblemSolver(cg_kwargs={"tol": 1e-13, "maxiter": 200}),
+                "Matrix": lambda: admmaux.MatrixSubproblemSolver(), "Generic": lambda: admmaux.GenericSubproblemSolver(),
+                "CircularConvolve": lambda: admmaux.CircularConvolveSolver()}[cls_name]
+        mk = _mk_admm_cc if cls_name == "CircularConvolve" else _mk_admm
+    else:
+        mk_h = getattr(pgmaux, cls_name)
+        acc = rest[0] == "acc"
+        mk = lambda k, h: _mk_pgm(k, h, acc)  # noqa: E731
+    h = mk_h()
+    o1 = mk(0, h)
+    for _ in range(2):
+        o1.step()
+    o2 = mk(1, h)
+    o3 = mk(1, mk_h())
+    for _ in range(nsteps):
+        o2.step()
+        o3.step()
+    return _state_of(o2), _state_of(o3)
+
+
+KNOWN_REUSE = "pgm-stepsize-reuse-stale-state"
+KNOWN_HUBER = "hubernorm-nonsep-stale-delta"
+
+
+def _reuse_case(ctx, name, nsteps):
+    case = {"kind": "reuse", "helper": name, "steps": nsteps}
+    try:
+        a, b = _reuse_run(name, nsteps)
+        err = None
+    except Exception as e:  # noqa: BLE001
+        err = repr(e)[:200]
+    ctx.case(case, ("reuse", name, nsteps))
+    ctx.count("reuse:" + name.split(":")[0])
+    rt = 1e-4 if "Generic" in name else 1e-7
+    bad = err is not None or len(a) != len(b) or any(not common.allclose(x, y, rtol=rt) for x, y in zip(a, b))
+    if bad:
+        def oracle(c):
+            if err is not None:
+                return {"case": c, "raised": err, "what": "an optimiser built with a helper object that was used with another optimiser before raises"}
+            return {"case": c, "with_reused_helper": [v.tolist() for v in a], "with_fresh_helper": [v.tolist() for v in b],
+                    "what": "a sub-problem solver / step-size object that was attached to (and used by) another optimiser before gives a different "
+                            "iterate than a fresh helper object: state of the first problem survives re-attachment"}
+
+        stale_pgm = name.startswith("pgm:") and name.split(":")[1] in ("BBStepSize", "AdaptiveBBStepSize", "RobustLineSearchStepSize", "LineSearchStepSize")
+        ctx.disagree("cache.reuse", case, "differs from fresh helper" if err is None else err, "same iterates as with a fresh helper", oracle=oracle,
+                     known_id=KNOWN_REUSE if (stale_pgm and err is None) else None)
+
+
+def _corr_reuse(ctx):
+    names = ["admm:Linear", "admm:Matrix", "admm:Generic", "admm:CircularConvolve"]
+    for c in ("PGMStepSize", "BBStepSize", "AdaptiveBBStepSize", "LineSearchStepSize", "RobustLineSearchStepSize"):
+        names += [f"pgm:{c}:plain", f"pgm:{c}:acc"]
+    for nm in names:
+        for nsteps in ((1, 2) if (ctx.thorough or nm.startswith("admm")) else (1,)):
+            _reuse_case(ctx, nm, nsteps)
+
+
+def _corr_args(ctx):
+    """(a) every object handed to a constructor / method is deep-snapshotted before and compared after; a SECOND optimiser built
+    from the very same argument objects must behave like the first"""
+    import jax.numpy as jnp
+
+    import cache_catalog as cc
+    from scico import functional as F
+    from scico import linop, loss, optimize
+    from scico.optimize import admm as admmaux
+    from scico.optimize import pgm as pgmaux
+
+    P = _problem(0)
+    f = loss.SquaredL2Loss(y=P["y"], A=linop.Diagonal(P["d"]), scale=P["scale"])
+    fI = loss.SquaredL2Loss(y=P["y"])
+    C = linop.FiniteDifference((5,), input_dtype=np.float64, circular=True)
+    g = P["g"]
+
+    def itopts():
+        return {"fields": {"Iter": "%d", "Val": "%8.3e"}, "itstat_func": lambda o: (o.itnum, float(np.sum(np.asarray(o.x)))), "display": False}
+
+    def builders():
+        cgk = {"tol": 1e-9, "maxiter": 50}
+        slv = {"cho_factor": False}
+        gl, Cl, rl = [g], [C], [1.5]
+        Cm = [linop.MatrixOperator(jnp.asarray(np.eye(5) + 0.25 * np.eye(5, k=1)))]
+        return [
+            ("PGM", {"itstat_options": itopts(), "x0": P["x0"], "f": f, "g": g},
+             lambda a: optimize.PGM(f=a["f"], g=a["g"], L0=8.0, x0=a["x0"], step_size=pgmaux.BBStepSize(), maxiter=2, itstat_options=a["itstat_options"])),
+            ("AcceleratedPGM", {"itstat_options": itopts(), "x0": P["x0"], "f": f, "g": g},
+             lambda a: optimize.AcceleratedPGM(f=a["f"], g=a["g"], L0=8.0, x0=a["x0"], maxiter=2, itstat_options=a["itstat_options"])),
+            ("ADMM(Linear)", {"itstat_options": itopts(), "x0": P["x0"], "f": f, "g_list": gl, "C_list": Cl, "rho_list": rl, "cg_kwargs": cgk},
+             lambda a: optimize.ADMM(f=a["f"], g_list=a["g_list"], C_list=a["C_list"], rho_list=a["rho_list"], x0=a["x0"], maxiter=2,
+                                     subproblem_solver=admmaux.LinearSubproblemSolver(cg_kwargs=a["cg_kwargs"]), itstat_options=a["itstat_options"])),
+            ("ADMM(Matrix)", {"itstat_options": itopts(), "x0": P["x0"], "f": f, "g_list": [g], "C_list": Cm, "rho_list": [1.5], "solve_kwargs": slv},
+             lambda a: optimize.ADMM(f=a["f"], g_list=a["g_list"], C_list=a["C_list"], rho_list=a["rho_list"], x0=a["x0"], maxiter=2,
+                                     subproblem_solver=admmaux.MatrixSubproblemSolver(solve_kwargs=a["solve_kwargs"]), itstat_options=a["itstat_options"])),
+            ("LinearizedADMM", {"itstat_options": itopts(), "x0": P["x0"], "f": fI, "g": g, "C": C},
+             lambda a: optimize.LinearizedADMM(f=a["f"], g=a["g"], C=a["C"], mu=0.1, nu=0.02, x0=a["x0"], maxiter=2, itstat_options=a["itstat_options"])),
+            ("PDHG", {"itstat_options": itopts(), "x0": P["x0"], "f": fI, "g": g, "C": C},
+             lambda a: optimize.PDHG(f=a["f"], g=a["g"], C=a["C"], tau=0.2, sigma=0.2, x0=a["x0"], maxiter=2, itstat_options=a["itstat_options"])),
+            ("ProximalADMM", {"itstat_options": itopts(), "x0": P["x0"], "f": fI, "g": g, "A": C},
+             lambda a: optimize.ProximalADMM(f=a["f"], g=a["g"], A=a["A"], rho=1.0, mu=4.5, nu=1.5, x0=a["x0"], maxiter=2, itstat_options=a["itstat_options"])),
+        ]
+
+    for name, args, mk in builders():
+        case = {"kind": "args", "optimiser": name, "arguments": sorted(args)}
+        before = {k: cc.snapshot(v) for k, v in args.items()}
+        res, err = [], None
+        try:
+            for _ in range(2):  # the second optimiser is built from the very same argument objects
+                o = mk(args)
+                x = o.solve()
+                hist = o.itstat_object.history(transpose=True)
+                res.append((np.asarray(x), [list(map(float, col)) for col in hist], list(type(hist)._fields)))
+        except Exception as e:  # noqa: BLE001
+            err = repr(e)[:200]
+        after = {k: cc.snapshot(v) for k, v in args.items()}
+        changed = sorted(k for k in args if before[k] != after[k])
+        ctx.case(case, ("args", name))
+        ctx.count("args:probe")
+        differs = err is None and (not common.allclose(res[0][0], res[1][0], rtol=1e-9) or res[0][1:] != res[1][1:])
+        if changed or err is not None or differs:
+            def oracle(c, changed=changed, err=err, differs=differs):
+                return {"case": c, "arguments_changed_by_use": changed, "second_optimiser_from_same_arguments": err or ("differs from the first" if differs else "same"),
+                        "what": "objects passed to a constructor / solve() were mutated by being used (or a second optimiser built from them behaves differently)"}
+
+            ctx.disagree("cache.args", case, {"changed": changed, "error": err, "second_differs": differs}, "arguments unchanged, second optimiser identical", oracle=oracle)
+
+
+def _corr_attr(ctx):
+    """(b) public parameters updated on an object that has already been used (same input signature again) against a fresh
+    object built with the new parameter; eager and under jax.jit (a new trace per call)"""
+    import jax
+    import jax.numpy as jnp
+
+    import cache_catalog as cc
+    from scico import functional as F
+    from scico import linop, loss
+
+    y = jnp.asarray(np.array([[1.0, -0.5, 2.0], [0.25, -1.5, 0.75]]))
+    specs = [
+        ("L2BallIndicator.radius", lambda p: F.L2BallIndicator(radius=p), "radius", [1.0, 2.5, 0.5], False),
+        ("HuberNorm(sep).delta", lambda p: F.HuberNorm(delta=p, separable=True), "delta", [0.5, 1.5, 0.25], True),
+        ("HuberNorm(nonsep).delta", lambda p: F.HuberNorm(delta=p, separable=False), "delta", [0.5, 1.5, 0.25], True),
+        ("L1MinusL2Norm.beta", lambda p: F.L1MinusL2Norm(beta=p), "beta", [0.5, 0.9, 0.25], False),
+        ("ScaledFunctional.scale", lambda p: p * F.L1Norm(), "scale", [0.5, 2.0, 1.25], False),
+        ("L21Norm.l2_axis", lambda p: F.L21Norm(l2_axis=p), "l2_axis", [0, 1, 0], False),
+        ("SquaredL2Loss.scale", lambda p: loss.SquaredL2Loss(y=y, scale=p), "scale", [0.5, 2.0, 0.125], True),
+        ("SquaredL2Loss(Diag).scale", lambda p: loss.SquaredL2Loss(y=y, A=linop.Diagonal(y + 3.0), scale=p), "scale", [0.5, 2.0, 0.125], True),
+        ("PoissonLoss.scale", lambda p: loss.PoissonLoss(y=jnp.abs(y) + 1.0, scale=p), "scale", [0.5, 2.0, 0.125], True),
+    ]
+    for name, mk, attr, params, smooth in specs:
+        for dt in (np.float64, np.float32):
+            for mode in ("eager", "jit"):
+                v = jnp.abs(cc._arr(ctx.rng, (2, 3), dt)) + 0.5 if "Poisson" in name else cc._arr(ctx.rng, (2, 3), dt)
+                lam = jnp.asarray(0.75, dtype=dt)
+
+                def calls(o, v=v, lam=lam, smooth=smooth):
+                    fs = []
+                    if o.has_eval:
+                        fs.append(("eval", lambda a, o=o: o(a)))
+                    if o.has_prox:
+                        fs.append(("prox", lambda a, o=o: o.prox(a, lam)))
+                    if smooth:
+                        fs.append(("grad", lambda a, o=o: o.grad(a)))
+                    out = {}
+                    for nm, fn in fs:
+                        try:
+                            r = jax.jit(lambda a, fn=fn: fn(a))(v) if mode == "jit" else fn(v)
+                            out[nm] = ("ok", cc.canon(r))
+                        except Exception as e:  # noqa: BLE001
+                            out[nm] = ("err", type(e).__name__)
+                    return out
+
+                obj = mk(params[0])
+                calls(obj)  # first use with the first parameter value
+                case = {"kind": "attr", "attribute": name, "values": params, "dtype": np.dtype(dt).name, "mode": mode, "x": np.asarray(v).tolist()}
+                ctx.case(case, ("attr", name, np.dtype(dt).name, mode))
+                ctx.count(f"attr:{mode}")
+                for p in params[1:]:
+                    setattr(obj, attr, p)
+                    got, want = calls(obj), calls(mk(p))
+                    badk = [k for k in want if got[k][0] != want[k][0] or (want[k][0] == "ok" and not cc.same(got[k][1], want[k][1], cc._rtol(dt)))]
+                    if badk:
+                        def oracle(c, p=p, badk=badk, got=got, want=want):
+                            k = badk[0]
+                            return {"case": c, "after_setting": p, "call": k,
+                                    "used_object": got[k][1] if got[k][0] == "err" else [np.asarray(a).tolist() for a in got[k][1]],
+                                    "fresh_object_with_that_parameter": want[k][1] if want[k][0] == "err" else [np.asarray(a).tolist() for a in want[k][1]],
+                                    "what": "after updating a public parameter of an object that was used before, a call on an input signature seen "
+                                            "earlier differs from a fresh object built with the new parameter"}
+
+                        known = KNOWN_HUBER if (name == "HuberNorm(nonsep).delta" and set(badk) <= {"eval", "grad"}) else None
+                        ctx.disagree("cache.attr-update", {**case, "after": p}, "stale", "fresh object with the new parameter", oracle=oracle, known_id=known)
+                        break
+
+
 def _run_corpus(ctx, model):
     d = common.CORPUS_DIR / PROP
     if not d.exists():
@@ -1243,6 +1504,9 @@ def correspond(ctx, model):
     timed("ctx", _corr_ctx, ctx, model)
     timed("opts", _corr_opts, ctx, model)
     timed("jit", _corr_jit, ctx, model)
+    timed("args", _corr_args, ctx)
+    timed("attr", _corr_attr, ctx)
+    timed("reuse", _corr_reuse, ctx)
     timed("mutation", _corr_mutation, ctx)
     timed("modes", _corr_modes, ctx)
     _global_state_check(ctx, state0)
@@ -1287,6 +1551,17 @@ def findings(ctx, model):
     for slug, (f, exc) in wit.items():
         if ctx.is_known(slug):
             ctx.known_finding(slug, raises(f, exc))
+    if ctx.is_known(KNOWN_HUBER):
+        xh = jnp.asarray(np.array([[1.0, -0.5, 2.0], [0.25, -1.5, 0.75]]))
+        hb = F.HuberNorm(delta=0.5, separable=False)
+        hb(xh)
+        hb.delta = 1.5
+        ctx.known_finding(KNOWN_HUBER, not common.close(float(hb(xh)), float(F.HuberNorm(delta=1.5, separable=False)(xh)), 8),
+                          "HuberNorm(delta=0.5, separable=False): h(x); h.delta = 1.5; h(x) = 1.3002 (old delta), fresh HuberNorm(1.5)(x) = 3.1507")
+    if ctx.is_known(KNOWN_REUSE):
+        a, b = _reuse_run("pgm:BBStepSize:plain", 1)
+        ctx.known_finding(KNOWN_REUSE, any(not common.allclose(x, y, rtol=1e-9) for x, y in zip(a, b)),
+                          "BBStepSize used with one PGM, then given to a second PGM: first step differs from a fresh BBStepSize")
 
 
 def search(ctx, model, why):
